@@ -212,6 +212,17 @@ void run_C11(vh::Ctx& c) {
           if (!(e <= worsttol * d * ma)) c.violation(vh::fmt("C11:interval:d%d:evolve-differs-from-time-average", d), c.cur_desc + vh::fmt(" off by %.3g (tolerance %.3g)", e, worsttol * d * ma));
           c.count("interval.evolve_judged");
         }
+        // the averaged table applied in place and to a vector on user storage: the same bits as into a fresh vector
+        {
+          SU_vector X = make(a); X = X.Evolve(buf);
+          ExtVec EX(a, d); SU_vector E2 = EX.v.Evolve(buf); EX.v = EX.v.Evolve(buf);
+          SU_vector Y = make(a); Y += Y.Evolve(buf); SU_vector Y2 = make(a); Y2 += E;
+          c.eval(4); c.count("interval.evolve_in_place_forms", 4);
+          if (!same_bits(X, E)) c.violation(vh::fmt("C11:interval:d%d:evolve-in-place-differs", d), c.cur_desc + " X = X.Evolve(table)");
+          if (!same_bits(E2, E) || !same_bits(EX.v, E) || !EX.bound()) c.violation(vh::fmt("C11:interval:d%d:evolve-differs-for-a-vector-on-user-storage", d), c.cur_desc);
+          // (the accumulating form may be contracted into fused multiply-adds: one rounding less than a[k] + E[k])
+          for (int k = 0; k < d * d; k++) if (!(std::fabs(Y[k] - Y2[k]) <= 8 * EPS * d * (std::fabs(a[k]) + ma))) { c.violation(vh::fmt("C11:interval:d%d:evolve-in-place-differs", d), c.cur_desc + " X += X.Evolve(table)"); break; }
+        }
       }
     } else {
       // ---- averaged expectation values of the solver class built on the same tables
